@@ -463,8 +463,9 @@ def cd4(ctx):
                 for si, st in enumerate(blk2['stmts']):
                     if d.live[bj] and (d.pstart[bj] + si) in excl and st['k'] == 'assign' and st['rv']['k'] == 'agg' and strip_crate(st['rv'].get('adt', '')) == MPR:
                         t2k[t] = st['rv']['variant']
-    ident = bool(k2t) and all(t2k.get(t) == k for k, t in k2t.items()) and len(k2t) == 4
-    ctx.check(ident, 'kind-roundtrip', s.span, 'deserialize(serialize(kind)) = kind for all 4 kinds (%s)' % k2t, 'entry kind tables do not compose to the identity: serialize %s, deserialize %s' % (k2t, t2k))
+    nk = len(ctx.f.adts[MPR]['variants']) if MPR in ctx.f.adts else 4
+    ident = bool(k2t) and all(t2k.get(t) == k for k, t in k2t.items()) and len(k2t) == nk
+    ctx.check(ident, 'kind-roundtrip', s.span, 'deserialize(serialize(kind)) = kind for all %d kinds (%s)' % (nk, k2t), 'entry kind tables do not compose to the identity: serialize %s, deserialize %s' % (k2t, t2k))
 
 
 @rule('CD5', ['C18', 'C01'], floor=4, template='structure')
